@@ -603,14 +603,34 @@ def _macro_job(hists):
     return out
 
 
+def _fnv1a(name):
+    h = 0x811c9dc5
+    for b in name.encode():
+        h = ((h ^ b) * 0x1000193) & 0xffffffffffffffff
+    return h
+
+
+def _colliding_names():
+    by = {}
+    for i in range(20000):
+        by.setdefault(_fnv1a('m%d' % i) & 1023, []).append('m%d' % i)
+    for k in sorted(by):
+        if len(by[k]) >= 2 and by.get((k + 1) & 1023):
+            return (by[k][0], by[k][1], by[(k + 1) & 1023][0])
+    raise RuntimeError('no colliding macro names found')
+
+
 def k3_macros(chk):
     names2 = ('a', 'b')
     # 'a' and 'i' etc. are also spelled like declared identifiers elsewhere; the macro table must not care. Names of different length and a
     # name that is a keyword spelling exercise the key comparison (length + bytes)
     plans = [(names2, 3), (('a',), 4), (('a', 'ab'), 3), (('int', 'in'), 2)] if chk.quick else [(names2, 4), (('a',), 6), (('a', 'ab'), 4), (('int', 'in'), 3), (('a', 'b', 'c'), 3)]
     hs, seen = [], set()
-    for names, n in plans:
-        evs = macro_events(names)
+    # names whose FNV-1a hashes (map.c) agree in the low 10 bits, and one that hashes to the next slot: they share a probe run in the macro
+    # table at every capacity up to 1024, so removing one must not hide the others (seeded round 9: #undef emptied the key slot)
+    collide = _colliding_names()
+    for names, n in plans + [(collide, 4 if chk.quick else 5)]:
+        evs = macro_events(names) if names != collide else [e for nm in names for e in (('def', nm, 'o1'), ('undef', nm), ('use', nm))]
         for k in range(1, n + 1):
             for h in itertools.product(evs, repeat=k):
                 if any(e[0] in ('use', 'call') for e in h) or any(e[0] == 'def' for e in h[1:]):
